@@ -166,6 +166,55 @@ Print Assumptions C09_leave_room_emits_close.
 Print Assumptions C09_leave_call_emits_close.
 Print Assumptions C09_revoke_emits_close.
 
+(* ---- virtual sessions hold no media objects (proofs/Hub_attach.v: the invariant AT; proofs/Hub_virtual_media.v) ----
+   For every history (any limits, gated or not, any ops, step-by-step or quiescent runs; every delivery order of the
+   bus and every interleaving of the media server's completions are histories): a virtual session has no connection,
+   no publisher, no subscriber, and no creation is pending for it. *)
+From Verif Require Import proofs.Hub_attach proofs.Hub_virtual_media.
+Theorem C09_virtual_sessions_hold_nothing : forall limits gated ops h,
+  h = run (init limits gated) ops \/ h = qrun (init limits gated) ops ->
+  forall sid s, get_sess h sid = Some s -> is_virtual s.(s_kind) = true ->
+  s.(s_conn) = None /\ s.(s_pubs) = [] /\ s.(s_subs) = [] /\
+  (forall tok p, In (tok, p) h.(h_mcupending) -> p.(mp_owner) <> sid).
+Proof. intros limits gated ops h R. exact (virtual_sessions_hold_nothing h (reachable_intro limits gated ops h R)). Qed.
+(* Every creation the media server has not answered yet belongs to a live session that is not virtual. *)
+Theorem C09_pending_creations_have_client_owner : forall limits gated ops h,
+  h = run (init limits gated) ops \/ h = qrun (init limits gated) ops ->
+  forall tok p, In (tok, p) h.(h_mcupending) ->
+  exists s, get_sess h p.(mp_owner) = Some s /\ is_virtual s.(s_kind) = false.
+Proof. intros limits gated ops h R. exact (pending_creations_have_client_owner h (reachable_intro limits gated ops h R)). Qed.
+(* C09_open_objects_are_owned, sharpened: every object open at the media server is held by a live session that is
+   NOT virtual - of exactly one. *)
+Theorem C09_open_objects_owned_by_client_sessions : forall limits gated ops h,
+  h = run (init limits gated) ops \/ h = qrun (init limits gated) ops ->
+  forall tok, In tok h.(h_mcuopen) ->
+  exists sid s, get_sess h sid = Some s /\ is_virtual s.(s_kind) = false /\
+    In tok (map snd s.(s_pubs) ++ map snd s.(s_subs)) /\
+    forall sid' s', get_sess h sid' = Some s' -> In tok (map snd s'.(s_pubs) ++ map snd s'.(s_subs)) -> sid' = sid.
+Proof. intros limits gated ops h R. exact (open_object_owner_unique_client h (reachable_intro limits gated ops h R)). Qed.
+(* The session a client request is processed for - the one attached to the connection it arrived on - is never
+   virtual (a virtual session never gets a connection): media requests come from ordinary or internal clients. *)
+Theorem C09_request_session_not_virtual : forall limits gated ops h c cn sid s,
+  h = run (init limits gated) ops \/ h = qrun (init limits gated) ops ->
+  aget h.(h_conns) c = Some cn -> cn.(c_sess) = Some sid -> get_sess h sid = Some s -> is_virtual s.(s_kind) = false.
+Proof. intros limits gated ops h c cn sid s R. exact (request_session_not_virtual h c cn sid s (reachable_intro limits gated ops h R)). Qed.
+(* Not vacuous: a client, an internal client and its virtual session in one call; publisher and subscriber are held
+   by the two clients, the virtual session holds nothing (media server answering at once; gated, before and after
+   the completions). *)
+Example C09_example_virtual_session_in_call :
+  vm_view (qrun (init [0; 0] false) vm_ops) =
+    ([1; 2], [], [(1, false, Some 1, [(0, 1)], []); (2, false, Some 2, [], [(1, 0, 2)]); (3, true, None, [], [])]) /\
+  vm_view (qrun (init [0; 0] true) vm_ops) =
+    ([], [(1, 1); (2, 2)], [(1, false, Some 1, [], []); (2, false, Some 2, [], []); (3, true, None, [], [])]) /\
+  vm_view (run (init [0; 0] true) (vm_ops ++ [OMcuDone 2 true; OMcuDone 1 true])) =
+    ([2; 1], [], [(1, false, Some 1, [(0, 1)], []); (2, false, Some 2, [], [(1, 0, 2)]); (3, true, None, [], [])]).
+Proof. exact vm_example. Qed.
+Print Assumptions C09_virtual_sessions_hold_nothing.
+Print Assumptions C09_pending_creations_have_client_owner.
+Print Assumptions C09_open_objects_owned_by_client_sessions.
+Print Assumptions C09_request_session_not_virtual.
+Print Assumptions C09_example_virtual_session_in_call.
+
 (* ============================================================================================================
    C09J — the media server's side: the bookkeeping of mcuJanus (model/Janus.v, proofs/Janus_proofs.v), scenario
    C09J of the check (corr/Run_C09J.v, harness c09j_verif_test.go).  The names of model/Janus.v shadow those of the
